@@ -85,12 +85,27 @@ def r2(ctx):
     sb = prog.abody("OutstationSession::perform_unsolicited_response_series")
     ss = ctx.sym(sb)
     news = call_sites(sb, r"RetryCounter::new$")
-    zero = [b for b in news if mentions(ss.call_expr(b.term), lambda s: s[0] == "agg" and s[2] == "Some") and mentions_const(ss.call_expr(b.term), 0)]
-    ctx.check(len(zero) == 1, "null:zero-retries", "RetryCounter::new(Some(0)) exists", sb.where(line=sb.line))
-    for b in zero:
-        ctx.require_guards(sb, b.idx, [("is_null", g_bool(lambda x: x in (("capture", "is_null"), ("param", "is_null")), True))], "null:zero-retries", "zero retry counter")
-    cfg = [b for b in news if mentions_field(ss.call_expr(b.term), "max_unsolicited_retries")]
-    ctx.check(len(cfg) == 1, "data:configured-retries", "RetryCounter::new(config.max_unsolicited_retries) exists", sb.where(line=sb.line))
+    # the limit handed to RetryCounter::new: Some(0) exactly when is_null, the configured limit otherwise - whether the two are
+    # two constructor calls (one overwriting the other under `if is_null`) or one call fed by an if/else
+    alts = []
+    live = sb.live_blocks()
+    for b in news:
+        a = ss.call_expr(b.term)[2][0]
+        if a[0] == "var":
+            locs = [int(a[1][1:])] if a[1].startswith("_") and a[1][1:].isdigit() else sb.local_by_name(a[1])
+            for l in locs:
+                for blk, si in sb.defs.get(l, []):
+                    if blk in live:
+                        alts.append((blk, ss.def_expr(blk, si)))
+        else:
+            alts.append((b.idx, a))
+    zero = [(blk, e) for blk, e in alts if e[0] == "agg" and e[2] == "Some" and mentions_const(e, 0)]
+    ctx.check(len(zero) == 1, "null:zero-retries", "a retry limit of Some(0) exists", sb.where(line=sb.line))
+    for blk, e in zero:
+        ctx.require_guards(sb, blk, [("is_null", g_bool(lambda x: x in (("capture", "is_null"), ("param", "is_null")), True))], "null:zero-retries", "zero retry limit")
+    cfg = [(blk, e) for blk, e in alts if mentions_field(e, "max_unsolicited_retries")]
+    ctx.check(len(cfg) == 1, "data:configured-retries", "the configured limit config.max_unsolicited_retries is the other source", sb.where(line=sb.line))
+    ctx.check(len(alts) == 2, "retry-limit:two-sources", "the retry limit has exactly these two sources (%d)" % len(alts), sb.where(line=sb.line))
     # data response
     wb = prog.body("OutstationSession::write_unsolicited_data")
     ws = ctx.sym(wb)
